@@ -246,8 +246,11 @@ class Kernel:
         if timeout is None:
             me.wake_at = None
         else:
-            if timeout < 0:
-                timeout = 0.0
+            if timeout <= 0:
+                # a wait that cannot block still costs a system call: without
+                # this a loop of zero-length waits would freeze virtual time
+                timeout = 5e-10
+                self.probes['zero-timeout-wait'] += 1
             me.wake_at = self.now + timeout + self._latency()
 
     def _latency(self):
